@@ -37,6 +37,32 @@ func (re *Regexp) Split(input string, count int) ([]string, error) {
 
 	m, err := re.FindStringMatch(input)
 
+	if re.RightToLeft() {
+		// matches arrive right to left: collect them, then emit the pieces left to right
+		var ms []*Match
+		for ; m != nil && count > 0; m, err = re.FindNextMatch(m) {
+			ms = append(ms, m)
+			count--
+		}
+		if err != nil {
+			return nil, err
+		}
+		if len(ms) == 0 {
+			return []string{input}, nil
+		}
+		txt = ms[0].text.runes
+		for i := len(ms) - 1; i >= 0; i-- {
+			m = ms[i]
+			retVal = append(retVal, string(txt[priorIndex:m.RuneIndex]))
+			gs := m.Groups()
+			for j := 1; j < len(gs); j++ {
+				retVal = append(retVal, gs[j].String())
+			}
+			priorIndex = m.RuneIndex + m.RuneLength
+		}
+		return append(retVal, string(txt[priorIndex:])), nil
+	}
+
 	for ; m != nil && count > 0; m, err = re.FindNextMatch(m) {
 		txt = m.text.runes
 		// if we have an m, we don't have an err
